@@ -1,6 +1,6 @@
 """C12 — syntax flags accept exactly the documented grammar: flag plumbing (DESIGN §4)."""
 from rules import syntax as S
-from rules.core import guarded
+from rules.core import guarded, guarded_soft
 from rules import extra as X
 
 INFO = {
@@ -16,9 +16,9 @@ def run(col, configs, tier):
         guarded(col, S.rule_getters, facts)
         guarded(col, S.rule_error_pairing, facts)
         guarded(col, S.rule_flags_enforced, facts)
-        guarded(col, X.rule_suffix_needs_digit, facts)
-        guarded(col, X.rule_grammar_guards, facts)
-        guarded(col, X.rule_pattern_before_input, facts)
-        guarded(col, X.rule_empty_number_exit, facts)
-        guarded(col, X.rule_required_sign_enforced, facts)
-        guarded(col, X.rule_empty_component_counts_digits, facts)
+        guarded_soft(col, X.rule_suffix_needs_digit, facts)
+        guarded_soft(col, X.rule_grammar_guards, facts)
+        guarded_soft(col, X.rule_pattern_before_input, facts)
+        guarded_soft(col, X.rule_empty_number_exit, facts)
+        guarded_soft(col, X.rule_required_sign_enforced, facts)
+        guarded_soft(col, X.rule_empty_component_counts_digits, facts)
